@@ -314,3 +314,12 @@ EXTREME_SCALES = {
   1e+80
  ]
 }
+
+
+# Metrics whose float64 evaluation stays accurate (1e-6 relative on the value / the radicand) for NEAR-DUPLICATE pairs
+# (y = x*(1 +- 1e-6)): the formula has no cancellation there, so an algebraically equivalent rewrite that introduces one is visible.
+NEAR_DUPLICATE_ACCURATE = ['additive_symmetric', 'average_euclidean', 'bray_curtis', 'canberra', 'chebyshev', 'chi_squared', 'clark',
+                           'divergence', 'euclidean', 'gaussian', 'gower', 'hamming', 'hassanat', 'hellinger', 'jaccard', 'jeffreys',
+                           'kulczynski', 'log_euclidean', 'lorentzian', 'manhattan', 'matusita', 'max_symmetric', 'mean_censored_euclidean',
+                           'min_symmetric', 'neyman', 'non_intersection', 'pearson', 'sangvi', 'soergel', 'squared', 'squared_chord',
+                           'squared_euclidean', 'statistic', 'vicis_symmetric1', 'vicis_symmetric2', 'vicis_symmetric3', 'vicis_wave_hedges']
